@@ -252,9 +252,17 @@ def _shard_run(a):
         if cur is None or len(canon(spec)) < len(canon(cur["spec"])):
             stats["found"][sig] = {"sig": sig, "msg": msg, "spec": spec}
 
-    # ---- enumerated part (round robin over shards)
-    if hasattr(prop, "enumerate_cases"):
-        for i, spec in enumerate(prop.enumerate_cases(tier)):
+    # ---- enumerated part (round robin over shards): the module's own enumerated
+    # cases, then the committed replay files of the property (regression tier: shrunk
+    # cases that once failed - on a defect repaired since or on a seeded change)
+    enum = list(prop.enumerate_cases(tier)) if hasattr(prop, "enumerate_cases") else []
+    for rp in sorted((VERIF / "replays" / prop.ID).glob("*.json")):
+        try:
+            enum.append(json.loads(rp.read_text())["spec"])
+        except (ValueError, KeyError):
+            continue
+    if enum:
+        for i, spec in enumerate(enum):
             if i % a.nshards != a.shard:
                 continue
             stats["enumerated"] += 1
